@@ -48,8 +48,14 @@ var quickTemplates = map[string]bool{
 }
 var quick64k = map[string]bool{"constructor-hash": true, "long-string": true}
 
-// thoroughMax caps N in the thorough tier for the templates whose compile time explodes.
-var thoroughMax = map[string]int{"upvalues-flat": 1<<15 + 1, "upvalues-nested": 1<<15 + 1}
+// thoroughMax caps N in the thorough tier for the templates whose compile time
+// explodes (minutes per case beyond the cap); every other template runs the
+// whole grid there.
+var thoroughMax = map[string]int{"upvalues-flat": 1<<15 + 1, "upvalues-nested": 1<<15 + 1,
+	"locals-seq": 1<<16 + 1, "locals-one-stat": 1<<16 + 1, "locals-nil": 1<<16 + 1, "locals-from-vararg": 1<<16 + 1, "locals-from-call": 1<<16 + 1,
+	"locals-in-blocks": 1<<16 + 1, "multi-assign-globals": 1<<16 + 1, "multi-assign-from-vararg": 1<<16 + 1, "multi-assign-fields-from-call": 1<<16 + 1,
+	"binary-right-paren": 1<<16 + 1, "binary-right-pow": 1<<16 + 1, "call-chain": 1<<16 + 1, "method-chain": 1<<16 + 1, "index-chain": 1<<16 + 1,
+	"bracket-index-chain": 1<<16 + 1, "closures-many": 1<<16 + 1, "call-nested-args": 1<<16 + 1, "params": 1<<16 + 1, "unary-const-fold": 1<<16 + 1}
 
 func (t template) wanted(n int, tier vp.Tier, sanitizer bool) bool {
 	if t.maxN > 0 && n > t.maxN {
